@@ -84,9 +84,13 @@ class Header:
 # Programmatically define headers:
 
 
-def mk_header(name, fields):
-    """Create a type which can parse this kind of header"""
-    members = {"_fields": fields}
+def mk_header(name, fields, byte_order="<"):
+    """Create a type which can parse this kind of header.
+
+    byte_order is the struct byte order character of the multi byte
+    fields: '<' for little endian, '>' for big endian.
+    """
+    members = {"_fields": fields, "_byte_order": byte_order}
     size = 0
     for field in fields:
         if field.name is not None:
@@ -133,7 +137,7 @@ class BaseHeader:
                 value = getattr(self, field.name)
             else:
                 value = 0
-            x = field.encode(value)
+            x = field.encode(value, self._byte_order)
             data.extend(x)
         return bytes(data)
 
@@ -143,7 +147,7 @@ class BaseHeader:
         offset = 0
         for field in hdr._fields:
             part = data[offset : offset + field.size]
-            value = field.decode(part)
+            value = field.decode(part, hdr._byte_order)
             if field.name is not None:
                 setattr(hdr, field.name, value)
             offset += field.size
@@ -173,10 +177,10 @@ class Const(HeaderField):
         super().__init__(name=None, size=len(value))
         self.value = value
 
-    def encode(self, value):
+    def encode(self, value, byte_order="<"):
         return self.value
 
-    def decode(self, data):
+    def decode(self, data, byte_order="<"):
         assert data == self.value
 
 
@@ -227,14 +231,14 @@ class FormatField(HeaderField):
     """Field which uses ``struct`` to pack and unpack data"""
 
     def __init__(self, name, fmt):
-        self.packer = struct.Struct(fmt)
-        super().__init__(name=name, size=self.packer.size)
+        self.packers = {bo: struct.Struct(bo + fmt) for bo in "<>"}
+        super().__init__(name=name, size=self.packers["<"].size)
 
-    def encode(self, value):
-        return self.packer.pack(value)
+    def encode(self, value, byte_order="<"):
+        return self.packers[byte_order].pack(value)
 
-    def decode(self, data):
-        return self.packer.unpack(data)[0]
+    def decode(self, data, byte_order="<"):
+        return self.packers[byte_order].unpack(data)[0]
 
 
 def Padding(amount):
